@@ -60,6 +60,7 @@ type vfLocal struct {
 	HasLocal bool   `json:"has_local"` // false: RouterConfig.LocalNode == nil
 	ID       string `json:"id"`        // base64
 	Role     string `json:"role"`
+	WS       string `json:"ws"` // writer state of the local node
 }
 
 type vfDecide struct {
@@ -89,6 +90,7 @@ type vfE2ENode struct {
 	Router   bool          `json:"router"`
 	HasLocal bool          `json:"has_local"`
 	Role     string        `json:"role"`
+	WS       string        `json:"ws"` // writer state of the node's own LocalNode
 	Strategy string        `json:"strategy"`
 	View     []vfViewEntry `json:"view"`
 }
@@ -111,6 +113,8 @@ type vfIn struct {
 	Endpoints []vfEndpoint `json:"endpoints"`
 	E2E       []vfE2E      `json:"e2e"`
 	Wired     []string     `json:"wired"` // handler types on which cmd/arc/main.go calls SetRouter
+	WSStandby string       `json:"ws_standby"`
+	WSPrimary string       `json:"ws_primary"`
 }
 
 type vfHit struct {
@@ -325,7 +329,7 @@ func vfRouterFor(t *testing.T, l vfLocal, strategy string, netw *vfNet, reg func
 	}
 	var local *cluster.Node
 	if l.HasLocal {
-		local = vfNode(vfUnB64(t, l.ID), l.Role, "", "healthy", "local.verif:80")
+		local = vfNode(vfUnB64(t, l.ID), l.Role, l.WS, "healthy", "local.verif:80")
 	}
 	return cluster.NewRouter(&cluster.RouterConfig{
 		Timeout:   2 * time.Second,
@@ -583,6 +587,8 @@ func vfEndpointRequest(t *testing.T, e vfEndpoint, spoof bool) *http.Request {
 //	1: client marker     -> a consulting handler answers 508
 //	2: no marker, the local node CAN serve (writer) -> local
 //	3: no router at all  -> local
+//	4: client marker, the local node is a writer in STANDBY writer state -> local
+//	5: client marker, the local node is a writer in PRIMARY writer state -> local
 func runEndpoints(t *testing.T, in *vfIn) []vfEndpointObs {
 	netw := newVfNet()
 	peer := fiber.New(fiber.Config{DisableStartupMessage: true})
@@ -596,8 +602,8 @@ func runEndpoints(t *testing.T, in *vfIn) []vfEndpointObs {
 	for _, w := range in.Wired {
 		wired[w] = true
 	}
-	mk := func(role string) *cluster.Router {
-		local := vfNode("L", role, "", "healthy", "local.verif:80")
+	mk := func(role, ws string) *cluster.Router {
+		local := vfNode("L", role, ws, "healthy", "local.verif:80")
 		reg := cluster.NewRegistry(&cluster.RegistryConfig{LocalNode: local, Logger: zerolog.Nop()})
 		reg.Register(vfNode("p1", "writer", "", "healthy", "p1.verif:80")) //nolint:errcheck
 		return cluster.NewRouter(&cluster.RouterConfig{Timeout: 2 * time.Second, Registry: reg, LocalNode: local,
@@ -610,21 +616,26 @@ func runEndpoints(t *testing.T, in *vfIn) []vfEndpointObs {
 			incapable = "compactor"
 		}
 		eo := vfEndpointObs{Route: e.Route}
-		for sc := 0; sc < 4; sc++ {
+		for sc := 0; sc < 6; sc++ {
 			switch sc {
 			case 0, 1:
-				node.setRouter(mk(incapable), wired)
+				node.setRouter(mk(incapable, ""), wired)
 			case 2:
-				node.setRouter(mk("writer"), wired)
+				node.setRouter(mk("writer", ""), wired)
 			case 3:
 				node.setRouter(nil, wired)
+			case 4:
+				node.setRouter(mk("writer", in.WSStandby), wired)
+			case 5:
+				node.setRouter(mk("writer", in.WSPrimary), wired)
 			}
+			spoof := sc == 1 || sc >= 4
 			// fiber's app.Test occasionally mangles a streamed response (Arrow IPC body stream
 			// writer on the in-memory test connection); an unreadable response is retried
 			var resp *http.Response
 			var err error
 			for attempt := 0; attempt < 4; attempt++ {
-				resp, err = node.app.Test(vfEndpointRequest(t, e, sc == 1), 30000)
+				resp, err = node.app.Test(vfEndpointRequest(t, e, spoof), 30000)
 				if err == nil {
 					break
 				}
@@ -725,7 +736,7 @@ func (cl *vfCluster) run(t *testing.T, c *vfE2E) vfE2EObs {
 		if nd.Router {
 			var local *cluster.Node
 			if nd.HasLocal {
-				local = vfNode(id, nd.Role, "", "healthy", vfAddr(i))
+				local = vfNode(id, nd.Role, nd.WS, "healthy", vfAddr(i))
 			}
 			reg := cluster.NewRegistry(&cluster.RegistryConfig{LocalNode: local, Logger: zerolog.Nop()})
 			for vi, ve := range nd.View {
